@@ -7,7 +7,9 @@ mod vk_iter {
     use super::*;
     use crate::verif_common::*;
 
-    struct Probe { k: usize, len: usize }
+    // the wrapped iterator: yields k, k+1, .., len-1; its size hint is truthful or -- adversarially -- arbitrary (size_hint is
+    // advisory: which elements are delivered must depend on what next() returns only)
+    struct Probe { k: usize, len: usize, hint: (usize, Option<usize>) }
     impl Iterator for Probe {
         type Item = usize;
         fn next(&mut self) -> Option<usize> {
@@ -16,14 +18,22 @@ mod vk_iter {
             r
         }
         // every other use of the wrapped iterator's state is an access to the same non-atomic shared object
-        fn size_hint(&self) -> (usize, Option<usize>) { push(E { loc: 9, kind: 9, arg: 0, ret: 0, ord: 0 }); (self.len - self.k, Some(self.len - self.k)) }
+        fn size_hint(&self) -> (usize, Option<usize>) { push(E { loc: 9, kind: 9, arg: 0, ret: 0, ord: 0 }); self.hint }
     }
 
     fn mk() -> (ConIterOfIter<usize, Probe>, usize, usize) {
         let k: usize = kani::any();
         let len: usize = kani::any();
         kani::assume(k <= len && len < usize::MAX);
-        (ConIterOfIter::new(Probe { k, len }), k, len)
+        let honest: bool = kani::any();
+        let hint: (usize, Option<usize>) = if honest { (len - k, Some(len - k)) } else { (kani::any(), kani::any()) };
+        (ConIterOfIter::new(Probe { k, len, hint }), k, len)
+    }
+    fn mk_honest() -> (ConIterOfIter<usize, Probe>, usize, usize) {
+        let k: usize = kani::any();
+        let len: usize = kani::any();
+        kani::assume(k <= len && len < usize::MAX);
+        (ConIterOfIter::new(Probe { k, len, hint: (len - k, Some(len - k)) }), k, len)
     }
     // addresses of the three atomics (taken once the iterator has reached its final place)
     fn locs(it: &ConIterOfIter<usize, Probe>) {
@@ -337,7 +347,7 @@ mod vk_iter {
     #[kani::stub(std::sync::atomic::Atomic::<bool>::load, b_load)]
     #[kani::stub(std::sync::atomic::Atomic::<bool>::store, b_store)]
     fn iter_len() {
-        let (it, k, len) = mk();
+        let (it, k, len) = mk_honest();
         locs(&it);
         let r = it.try_get_len();
         let s = st();
